@@ -5,7 +5,49 @@ use crate::CaseResult;
 use rsdd::repr::{CnfHasher, Literal, PartialModel, VarLabel};
 use serde_json::{json, Value};
 
+/// every partial assignment, reached the way the top-down compiler reaches it (push, decide, recurse, pop)
+fn dfs(h: &mut CnfHasher, raw: &Vec<Vec<(usize, bool)>>, m: &mut Vec<Option<bool>>, from: usize,
+       seen: &mut Vec<(Vec<(usize, Vec<(usize, bool)>)>, rsdd::repr::HashedCNF, Vec<Option<bool>>)>) -> CaseResult {
+    let falsified = raw.iter().any(|cl| cl.iter().all(|(v, p)| m[*v] == Some(!*p)));
+    if !falsified {
+        let sig: Vec<(usize, Vec<(usize, bool)>)> = raw.iter().enumerate()
+            .filter(|(_, cl)| cl.len() > 1 && !cl.iter().any(|(v, p)| m[*v] == Some(*p)))
+            .map(|(i, cl)| (i, cl.iter().filter(|(v, _)| m[*v].is_none()).cloned().collect()))
+            .collect();
+        let hv = h.hash(&PartialModel::from_assignments(m));
+        for (s2, h2, m2) in seen.iter() {
+            if (*s2 == sig) != (*h2 == hv) {
+                return Err(format!("partial assignments {:?} and {:?}: residual formulas {} but hashes {}", m2, m,
+                    if *s2 == sig { "coincide" } else { "differ" }, if *h2 == hv { "are equal" } else { "differ" }));
+            }
+        }
+        seen.push((sig, hv, m.clone()));
+    }
+    for v in from..m.len() {
+        for p in [true, false] {
+            h.push();
+            h.decide(Literal::new(VarLabel::new(v as u64), p));
+            m[v] = Some(p);
+            let r = dfs(h, raw, m, v + 1, seen);
+            m[v] = None;
+            h.pop();
+            r?;
+        }
+    }
+    Ok(())
+}
+
 pub fn run(c: &Value) -> CaseResult {
+    if c["case"].as_str() == Some("hasher_all") {
+        let n = c["nvars"].as_u64().unwrap_or(4) as usize;
+        let raw: Vec<Vec<(usize, bool)>> = c["cnf"].as_array().map(|cs| cs.iter().map(|cl| cl.as_array().map(|ls| ls.iter().map(|l| {
+            let x = l.as_i64().unwrap_or(1);
+            ((x.unsigned_abs() - 1) as usize, x > 0)
+        }).collect()).unwrap_or_default()).collect()).unwrap_or_default();
+        let cls: Vec<Vec<Literal>> = raw.iter().map(|cl| cl.iter().map(|(v, p)| Literal::new(VarLabel::new(*v as u64), *p)).collect()).collect();
+        let mut h = CnfHasher::new(&cls, n);
+        return dfs(&mut h, &raw, &mut vec![None; n], 0, &mut vec![]);
+    }
     let n = c["nvars"].as_u64().unwrap_or(4) as usize;
     let raw: Vec<Vec<(usize, bool)>> = c["cnf"].as_array().map(|cs| cs.iter().map(|cl| cl.as_array().map(|ls| ls.iter().map(|l| {
         let x = l.as_i64().unwrap_or(1);
@@ -58,6 +100,28 @@ pub fn candidates(seed: u64) -> Vec<Value> {
     // the documented example and a few fixed histories
     out.push(json!({"case": "hasher_hist", "nvars": 3, "cnf": [[1, 2], [-1, 3]], "ops": [["push"], ["decide", 1], ["pop"], ["push"], ["decide", -1], ["pop"], ["decide", 3]]}));
     out.push(json!({"case": "hasher_hist", "nvars": 3, "cnf": [[1, 2], [1, 2], [3]], "ops": [["push"], ["decide", -1], ["push"], ["decide", 3], ["pop"], ["pop"], ["decide", 2]]}));
+    // exhaustive over partial assignments: 3-5 variables, 2-5 clauses of 2-3 literals (at most 15 literal occurrences, so the
+    // product of the first 15 primes bounds every hash: < 2^128).  Half of the formulas use one pivot variable in both
+    // polarities and otherwise positive literals, so that the same literal occurs in several clauses.
+    out.push(json!({"case": "hasher_all", "nvars": 5, "cnf": [[1, 2, 3], [1, 4, 5], [-1, 2, 4], [-1, 3, 5]]}));
+    for k in 0..500 {
+        let nv = 3 + nx(3);
+        let ncl = 2 + nx(4);
+        let pivot = k % 2 == 0;
+        let cnf: Vec<Vec<i64>> = (0..ncl).map(|_| {
+            let len = 2 + nx(2) as usize;
+            let mut vs: Vec<i64> = vec![];
+            if pivot { vs.push(if nx(2) == 0 { 1 } else { -1 }); }
+            while vs.len() < len.min(nv as usize) {
+                let v = 1 + nx(nv) as i64;
+                if vs.iter().any(|x| x.abs() == v) { continue; }
+                vs.push(if pivot || nx(2) == 0 { v } else { -v });
+            }
+            vs.sort_by_key(|x| x.abs());
+            vs
+        }).collect();
+        out.push(json!({"case": "hasher_all", "nvars": nv, "cnf": cnf}));
+    }
     for _ in 0..600 {
         let nv = 2 + nx(3);
         let ncl = 1 + nx(5);
